@@ -202,7 +202,11 @@ LABEL_RE = re.compile(r"\s*(\d+)(?:\s+|$)(.*)$", re.S)
 class StmtParser:
     def __init__(self, text):
         self.text = text
-        self.c = Cursor(b09_tokens(text))
+        t = text.strip()
+        if t.startswith("(*") or re.match(r"(?i)rem\b", t):
+            self.c = Cursor([])
+        else:
+            self.c = Cursor(b09_tokens(text))
         self.e = ExprParser(self.c)
 
     def expr(self):
@@ -240,14 +244,14 @@ class StmtParser:
         t = self.text.strip()
         if t.startswith("(*"):
             return ("rem", t)
+        if re.match(r"(?i)rem\b", t):
+            return ("rem", t)
         if c.at_end():
             return None
         k, v = c.peek()
         if k != "id":
             raise SyntaxErr(f"statement expected, found {v!r}")
         u = v.upper()
-        if u == "REM":
-            return ("rem", t)
         if u == "IF":
             c.next()
             cond = self.expr()
@@ -400,6 +404,8 @@ class StmtParser:
                 e = self.expr()
                 if e[0] == "un" and e[2][0] == "num":
                     e = ("num", -e[2][1] if e[1] == "-" else e[2][1])
+                if e[0] == "call" and e[1] == "FLOAT" and e[2][0][0] == "num":
+                    e = e[2][0]  # BASIC09 DATA items are expressions; float($hh) is a constant one
                 if e[0] not in ("num", "str"):
                     raise SyntaxErr("DATA item is not a constant")
                 items.append(e)
@@ -479,7 +485,7 @@ class StmtParser:
                 group.append((v, dims))
                 if not c.accept(","):
                     break
-            tname, slen = "real", None
+            tname, slen = None, None
             if c.accept(":"):
                 k, v = c.next()
                 if k != "id":
@@ -501,7 +507,8 @@ class StmtParser:
                             raise SyntaxErr("malformed STRING<<>> placeholder")
                         slen = -1
             for name, dims in group:
-                out.append((name, dims, tname, slen))
+                # without a type clause the name decides: a trailing $ means STRING, otherwise REAL
+                out.append((name, dims, tname or ("string" if name.endswith("$") else "real"), slen))
             if not c.accept(";"):
                 break
         self.end()
